@@ -128,21 +128,31 @@ def rule_p2(repo):
         res.add('%s :: Theory._check_proof_item :: sorry :: decided-first' % THEORY, ok,
                 'no derivation is attempted for a step before it is known not to be a sorry' if ok else
                 'a derivation is reachable without the sorry test', '%s:%d' % (THEORY, st.lineno), nontrivial=False)
-    # forwarding in recursive calls
-    idx = {p: i for i, p in enumerate(params)}
+    # forwarding: every call that hands items on to the step checker (directly or through the block helper) passes the
+    # caller's report and flags unchanged
+    th_cls = repo.cls(THEORY, 'Theory')
     n_calls = 0
-    for c in ast.walk(func.node):
-        if isinstance(c, ast.Call) and call_name(c) == 'self.' + func.name:
+    for caller in th_cls.methods.values():
+        for c in ast.walk(caller.node):
+            if not (isinstance(c, ast.Call) and call_name(c) in ('self._check_proof_item', 'self._check_proof_items')):
+                continue
+            callee = th_cls.methods.get(call_name(c).split('.')[1])
+            if callee is None:
+                continue
+            cps = callee.params()[1:]
             n_calls += 1
             bad = []
             for p in ('rpt', 'no_gaps', 'compute_only', 'check_level'):
-                i = idx[p] - 1
+                if p not in cps:
+                    bad.append('%s has no parameter %s' % (callee.name, p))
+                    continue
+                i = cps.index(p)
                 got = c.args[i] if i < len(c.args) else next((k.value for k in c.keywords if k.arg == p), None)
                 if not is_name(got, p):
                     bad.append('%s <- %s' % (p, src(got) if got is not None else 'missing'))
             if not is_name(c.args[0] if c.args else None, params[1]):
-                bad.append('proof argument is %s' % src(c.args[0]))
-            res.add('%s :: Theory._check_proof_item :: recursive-call@%s :: forwards-flags' % (THEORY, src(c.args[1], 30) if len(c.args) > 1 else '?'),
+                bad.append('proof argument is %s' % (src(c.args[0]) if c.args else 'missing'))
+            res.add('%s :: Theory.%s :: call(%s)@%s :: forwards-flags' % (THEORY, caller.name, callee.name, src(c.args[1], 30) if len(c.args) > 1 else '?'),
                     not bad, 'rpt, no_gaps, compute_only, check_level forwarded unchanged' if not bad else '; '.join(bad),
                     '%s:%d' % (THEORY, c.lineno))
     need(n_calls >= 1, '_check_proof_item: no recursive call found')
@@ -354,17 +364,11 @@ def rule_p7(repo):
     func = repo.func(THEORY, 'Theory.check_proof')
     cfg = cfg_of(func.node)
     prf = func.params()[1]
-    loops = [n for n in cfg.nodes_of_kind('iter') if path_of(n.ast.iter) == prf + '.items' and isinstance(n.ast.target, ast.Name)]
-    ok = False
-    for it in loops:
-        v = it.ast.target.id
-        body = it.ast.body
-        if len(body) >= 1 and all(not isinstance(x, (ast.If, ast.Break, ast.Continue, ast.Try)) for s in body for x in ast.walk(s)) and any(
-                isinstance(c, ast.Call) and call_name(c) == 'self._check_proof_item' and len(c.args) >= 2 and
-                is_name(c.args[0], prf) and is_name(c.args[1], v) for s in body for c in ast.walk(s)):
-            ok = all(cfg.dominates(it, r) for r in cfg.return_nodes())
+    from .checker_blocks import checks_block
+    blocks = checks_block(repo, cfg, prf + '.items', prf)
+    ok = bool(blocks) and all(any(cfg.dominates(b, r) for b in blocks) for r in cfg.return_nodes())
     res.add('%s :: Theory.check_proof :: all-items' % THEORY, ok,
-            'for seq in %s.items: self._check_proof_item(%s, seq, ...) unconditionally' % (prf, prf) if ok else
+            'every item of %s.items is handed to the step checker before check_proof returns' % prf if ok else
             'not every item of the proof is checked before check_proof returns', func.loc)
     rets = cfg.return_nodes()
     ok = bool(rets) and all(r.ast.value is not None and path_of(r.ast.value) == prf + '.items[-1].th' and
@@ -496,6 +500,46 @@ def rule_p10(repo):
     return res
 
 
+def rule_p11(repo):
+    """A step may cite lines with smaller identifiers; that is only as good as "identifier = position".  The
+    test `prf.find_item(seq.id) is seq` (P1) is fooled by one item object placed at two positions: it is found
+    under its own identifier, is visited early, and cites itself (or a later line) before anything is derived.
+    Every loop that hands the items of a block to the step checker must compare each item\'s identifier with
+    the block\'s identifier extended by the loop index."""
+    res = RuleResult('C02.P11', 'every item is checked at the position its identifier names: the loops over a block compare identifier and index', floor=1)
+    m = repo.module('kernel/theory.py')
+    th = repo.cls('kernel/theory.py', 'Theory')
+    calls = []
+    for f in th.methods.values():
+        for c in ast.walk(f.node):
+            if isinstance(c, ast.Call) and call_attr(c) == '_check_proof_item':
+                calls.append((f, c))
+    need(calls, 'Theory: no call of _check_proof_item')
+    for f, c in calls:
+        # enclosing for-loop over enumerate(..)
+        loop = None
+        for n in ast.walk(f.node):
+            if isinstance(n, ast.For) and any(x is c for st in n.body for x in ast.walk(st)):
+                loop = n
+        ok = False
+        why = 'the step checker is called outside a loop that knows the position of the item'
+        if loop is not None and isinstance(loop.iter, ast.Call) and call_name(loop.iter) == 'enumerate' and isinstance(loop.target, ast.Tuple):
+            idx, item = [getattr(e, 'id', None) for e in loop.target.elts]
+            arg_ok = len(c.args) >= 2 and is_name(c.args[1], item)
+            tests = [n for st in loop.body for n in ast.walk(st) if isinstance(n, ast.If) and compare_parts(n.test) and
+                     compare_parts(n.test)[0] in (ast.NotEq,) and (path_of(compare_parts(n.test)[1]) or '').startswith(item + '.id') and
+                     idx in {x.id for x in ast.walk(compare_parts(n.test)[2]) if isinstance(x, ast.Name)} and
+                     any(isinstance(x, ast.Raise) for b in n.body for x in ast.walk(b))]
+            before = [t for t in tests if t.lineno < c.lineno]
+            ok = arg_ok and bool(before)
+            why = 'identifier compared with the block identifier extended by the index, mismatch raises' if ok else \
+                'the loop does not compare `%s.id` with the position `%s` before the item is checked' % (item, idx)
+        res.add('kernel/theory.py :: Theory.%s :: item-at-its-position' % f.name, ok,
+                why if ok else why + ': an item object placed at a second position is visited early and can cite lines that are not derived yet '
+                '(items [X, R, X] with X = "2: |- false by equal_elim from 1, 0" were accepted)', '%s:%d' % ('kernel/theory.py', c.lineno))
+    return res
+
+
 def rules(repo):
     return [rule_p1(repo), rule_p2(repo), rule_p3(repo), rule_p4(repo), rule_p5(repo), rule_p6(repo), rule_p7(repo),
-            rule_p8(repo), rule_p9(repo), rule_p10(repo)]
+            rule_p8(repo), rule_p9(repo), rule_p10(repo), rule_p11(repo)]
